@@ -16,6 +16,9 @@ import Driver.VP8LEntropy
 import Driver.CodecFront
 import Driver.BoolCoder
 import Driver.VP8SyntaxBytes
+import Driver.VP8HeaderBytes
+import Driver.VP8LWindow
+import Driver.VP8Dec
 /-
   webpdrv — line protocol: one operation per input line (`op arg arg …`), one canonical
   output line per operation.  Unknown or malformed operations answer `bad-op` (never a default).
@@ -38,7 +41,10 @@ def dispatch (line : String) : String :=
            <|> Driver.VP8LEntropy.handle op args
            <|> Driver.CodecFront.handle op args
            <|> Driver.BoolCoder.handle op args
-           <|> Driver.VP8SyntaxBytes.handle op args) with
+           <|> Driver.VP8SyntaxBytes.handle op args
+           <|> Driver.VP8HeaderBytes.handle op args
+           <|> Driver.VP8LWindow.handle op args
+           <|> Driver.VP8Dec.handle op args) with
     | some r => r
     | none => "bad-op"
 
